@@ -13,17 +13,22 @@ from . import common
 LEAN_TARGETS = ['DawgieVerif.Model.FrameIO']
 
 MANIFEST = dict(
-    text='Lean theorems over an executable model of the shared frame-reassembly loop '
-         '(feed_append, any_chunking, frames_roundtrip, chunked_frames, recv1_agrees: for every byte '
-         'stream, every chunking, every message list, by induction, no size bound) and of the legacy '
-         'handshake; the model is tied to the three real dataReceived loops, message.send/receive and '
-         'TwistedWrapper.process by a correspondence run on every check, and the prefix width is '
-         'regenerated from the struct formats in the source.',
+    text='Lean theorems over an executable model of the frame-reassembly loop shared by the farm, '
+         'database and log channels (feed_append, any_chunking, frames_roundtrip, chunked_frames, '
+         'recv1_agrees: every byte stream, every chunking, every message list, by functional induction, '
+         'no size bound) and of security.TwistedWrapper (hs_gate, hs_authenticated, '
+         'hs_no_echo_no_delivery, hs_fail_closed, hs_tail_in_order, hs_no_struct_error: invariants over '
+         'every chunk list and every verify/decrypt behaviour). The models are tied to the three real '
+         'dataReceived loops, message.send/receive and TwistedWrapper.process by a correspondence run on '
+         'every check; the prefix width is regenerated from the struct formats in the source.',
     note='Trusted: Lean kernel; axioms propext/Classical.choice/Quot.sound only; tools/gen_c14.py; '
-         'harness fakes (transport, identity pickle shim, table-driven PGP fake). Assumed: Twisted delivers '
-         'nothing after loseConnection; PGP verify rejects the empty message. Real sockets and kernel '
-         'chunking are not exercised (the theorem proves independence from chunking).',
-    technique='Lean 4 proof by functional induction on the frame loop + differential correspondence',
+         'harness fakes (transport, identity pickle shim, table-driven PGP fake, fixed challenge text). '
+         'Assumed: Twisted delivers nothing after loseConnection. Not proved (stated in '
+         'Props/C14Handshake.lean): chunking independence of the handshake phase itself as a theorem '
+         '(it is checked by the monitor on every case: chunked vs whole delivery); str.strip() of the echo '
+         'is not modelled. Real sockets and kernel chunking are not exercised (the theorem proves '
+         'independence from chunking).',
+    technique='Lean 4 proof by functional induction on the frame loop and invariants of the handshake + differential correspondence',
     design='7/C14',
 )
 
@@ -63,10 +68,13 @@ class Channels:
         message.loads = lambda b: bytes(b)
         message.dumps = lambda m: bytes(m)
         func = comms.Func
+        # `get` requests make the db worker close after each request (one request per
+        # connection); `acquire` requests keep it open: used for multi-message streams
+        self.req_func = holder = {'func': func.get, 'get': func.get, 'acquire': func.acquire}
 
         class Req:
             def __init__(self, b):
-                self.func = func.get
+                self.func = holder['func']
                 self.payload = bytes(b)
 
         comms.pickle = types.SimpleNamespace(
@@ -183,6 +191,9 @@ def run_frame_case(ch, res, chunks, expect, tag, lines, pending):
 
 
 def run(ctx, res):
+    import logging
+
+    logging.disable(logging.CRITICAL)
     ch = Channels()
     r = common.rng(ctx['seed'], 'C14')
     thorough = ctx['tier'] == 'thorough' or ctx['escalate']
@@ -262,6 +273,9 @@ def run(ctx, res):
 
 
 def replay(rep, res):
+    import logging
+
+    logging.disable(logging.CRITICAL)
     ch = Channels()
     inp = rep['input']
     if inp['kind'] == 'frame':
